@@ -37,6 +37,9 @@ func init() {
 			{Name: "text nodes are space-trimmed", File: "constructors.go", Old: "Text: []byte(text)}", New: "Text: []byte(strings.TrimSpace(text))}", Rule: "C03.identity"},
 			{Name: "WithDelims forgets the right delimiter", File: "set.go", Old: "\t\ts.rightDelim = right\n", New: "\t\ts.rightDelim = left\n", Rule: "C03.delims"},
 			{Name: "WithCommentDelims overwrites the action delimiter", File: "set.go", Old: "\t\ts.leftComment = left\n", New: "\t\ts.leftDelim = left\n", Rule: "C03.delims"},
+			{Name: "comment candidate ignored when no action candidate is left (original defect)", File: "lex.go", Old: "if ic > -1 && (i == -1 || ic < i) {", New: "if ic > -1 && ic < i {", Rule: "C03.next"},
+			{Name: "farther candidate chosen", File: "lex.go", Old: "if ic > -1 && (i == -1 || ic < i) {", New: "if ic > -1 && (i == -1 || ic > i) {", Rule: "C03.next"},
+			{Name: "equivalent: candidates compared the other way round", File: "lex.go", Old: "if ic > -1 && (i == -1 || ic < i) {", New: "if ic >= 0 && (i < 0 || i > ic) {", Rule: "-"},
 			{Name: "CR no longer trimmed", File: "lex.go", Old: "return r == ' ' || r == '\\t' || r == '\\r' || r == '\\n'", New: "return r == ' ' || r == '\\t' || r == '\\n'", Rule: "C03.space"},
 			{Name: "form feed also trimmed", File: "lex.go", Old: "return r == ' ' || r == '\\t' || r == '\\r' || r == '\\n'", New: "return r == ' ' || r == '\\t' || r == '\\r' || r == '\\n' || r == '\\f'", Rule: "C03.space"},
 			{Name: "left trim uses unicode.IsSpace", File: "lex.go", Old: "return Pos(len(s) - len(strings.TrimLeftFunc(s, isSpace)))", New: "return Pos(len(s) - len(strings.TrimLeftFunc(s, unicode.IsSpace)))", Rule: "C03.space"},
@@ -410,6 +413,7 @@ func runC03(c *an.Ctx) {
 	c.Expect("C03.delims", "references to the default delimiter constants", nRef, 4)
 	c.OK("C03.delims", "defaults-only-in-constructor", p.Jet.Syntax[0].Pos(), "the default delimiter constants are referenced only by the lexer constructor (%d references)", nRef)
 	c03configured(c)
+	c03candidates(c)
 }
 
 // c03configured: every delimiter configured on the Set reaches the lexer before it runs.  In (*Set).parse,
